@@ -58,7 +58,9 @@ Cl_MetricsRel == (E.ev = "Metrics") => (MetricsStrict \/ D3_Excuses)
 Ref_TwinOutcome == (E.ev = "TwinEnd") => E.a_outcome = E.b_outcome
 \* scaling area and feed by a power of two is exact in binary floating point: the scaled run is the same computation, so it
 \* returns exactly when the original does (a run that returned has a scaled twin with results to compare)
-Cl_ScaleOutcome == (E.ev = "TwinEnd" /\ O.level = "process" /\ O.rel = "scale" /\ O.kpow2) => E.a_outcome = E.b_outcome
+\* (the same holds for the area / step-length trade without a programme: (J A k)(dt / k) is the very same product)
+Cl_ScaleOutcome == (E.ev = "TwinEnd" /\ O.level = "process" /\ O.kpow2 /\ (O.rel = "scale" \/ (O.rel = "trade" /\ ~O.hasProg)))
+                     => E.a_outcome = E.b_outcome
 
 (* ------------------------------ function level ----------------------------- *)
 Fn(f) == f.ok                                \* both calls returned
